@@ -160,7 +160,7 @@ def load(repo=None, extra_tus=None, extra_roots=None, use_cache=True, only_tus=N
         raise AnalysisBroken("setup", "extractor %s missing; run tool/build.sh (MANIFEST.setup_cmd)" % EXTRACTOR)
     tus = tu_list(repo) if only_tus is None else list(only_tus)
     inst = os.path.join(VERIF, "tu", "instantiate.cpp")
-    extra = [inst] if only_tus is None else []
+    extra = [inst, os.path.join(VERIF, "tu", "normalize_fixtures.cpp")] if only_tus is None else []
     extra += list(extra_tus or [])
     roots = [repo + "/", os.path.join(VERIF, "tu") + "/"] + list(extra_roots or [])
     t0 = time.time()
@@ -233,5 +233,7 @@ def load(repo=None, extra_tus=None, extra_roots=None, use_cache=True, only_tus=N
     if os.environ.get("VERIF_NO_NORMALISE") != "1":
         from . import normalize
         normalize.normalise(facts)
+        if only_tus is None:
+            normalize.self_check(facts)
     facts.extract_s = time.time() - t0
     return facts
